@@ -3,7 +3,7 @@
    the property statements on the implementation's own outputs (tags 11..), reports guard facts
    (tags 201..).  Tags >= 1000: the evaluation-based comparison was undefined at too many points. *)
 From Coq Require Import QArith ZArith NArith List Bool PArith Arith.
-From PV Require Import Base.PyData Base.Expr Base.Interp Base.Stmts C05.Model.
+From PV Require Import Base.PyData Base.Expr Base.Interp Base.Stmts C05.Model C05.ToCs.
 Import ListNotations.
 Local Open Scope nat_scope.
 
@@ -27,8 +27,11 @@ Record case := mkCase {
   k_rt : option cs;                           (* from_dict(to_dict(cs)): its graph and t *)
   k_rt_eq : eqres;                            (* from_dict(to_dict(cs)) == cs *)
   k_other : option (list op * eqres * bool);  (* a second system: cs == other, to_dict equal *)
-  k_subs : option (list (id * expr) * graph); (* substitution and graph of cs.subs(...) *)
+  k_subs : option (list (id * expr) * graph * list name);
+      (* substitution, graph of cs.subs(...), its compartment_names *)
   k_rebuilt : option (list (name * expr));    (* eqs of to_compartmental_system(names, cs.eqs), by name *)
+  k_tocs : option (list comp * list expr * list leq * graph);
+      (* to_compartmental_system: default compartments, lhs functions, expanded terms of cs.eqs, real result graph *)
   k_envs : list (list (id * Q))
 }.
 
@@ -203,7 +206,16 @@ Definition dod_agree (need : nat) (envs : list env) (a b : graph) : nat :=
 
 Definition check_subs (c : case) : list nat :=
   match k_subs c with
-  | Some (m, g') => tag3 (dod_agree 2 (envs_of c) (fst (cs_subs m (model_graph c, k_t c))) g') 8 1008
+  | Some (m, g', _) =>
+      tag3 (dod_agree 2 (envs_of c) (fst (cs_subs m (model_graph c, k_t c))) g') 8 1008
+      (* node order and adjacency order, when they do not depend on set iteration order *)
+      ++ (if subs_order_determined m (model_graph c) then
+            let ge := fst (cs_subs_exact m (model_graph c, k_t c)) in
+            tag (list_eqb oname_eqb (map node_name (nodes ge)) (map node_name (nodes g'))
+                 && list_eqb (list_eqb oname_eqb) (map (fun p => map (fun e => node_name (fst e)) (snd p)) ge)
+                                                  (map (fun p => map (fun e => node_name (fst e)) (snd p)) g')) 8
+            ++ tag3 (dod_agree 2 (envs_of c) ge g') 8 1008
+          else [])
   | None => []
   end.
 
@@ -286,7 +298,7 @@ Definition expr_agree2 (need : nat) (envs envs' : list env) (a b : expr) : nat :
 Definition oracle_subs (c : case) : list nat :=
   match k_subs c with
   | None => []
-  | Some (m, g') =>
+  | Some (m, g', _) =>
       let g := k_graph c in
       let E := envs_of c in
       let E' := sub_envs m E in
@@ -311,15 +323,51 @@ Definition oracle_subs (c : case) : list nat :=
            end) g)) 19 1019
   end.
 
+(* 21: substitution does not change the compartment order *)
+Definition oracle_subs_order (c : case) : list nat :=
+  match k_subs c with
+  | Some (_, _, names') => tag (list_eqb name_eqb names' (k_names c)) 21
+  | None => []
+  end.
+
+(* 9: the model of to_compartmental_system run on the real expanded equations gives the real graph
+   (node order by name, exact; compartments and rates by evaluation) *)
+Definition check_tocs (c : case) : list nat :=
+  match k_tocs c with
+  | None => []
+  | Some (cmts, amts, eqs, g') =>
+      let gm := to_cs cmts amts eqs in
+      tag (list_eqb oname_eqb (map node_name (nodes gm)) (map node_name (nodes g'))) 9
+      ++ tag3 (dod_agree 2 (envs_of c) gm g') 9 1009
+  end.
+
+(* 20: on the implementation: when the system is linear with pairwise distinct rates, the rebuilt system has
+   the same flows, output flows and inputs as the original (doses, lag, bioavailability are not recoverable) *)
+Definition strip (g : graph) : graph :=
+  map (fun p => (match fst p with Out => Out | Cmt x => Cmt (with_input (default_comp x) (c_input x)) end,
+                 map (fun e => (match fst e with Out => Out | Cmt x => Cmt (with_input (default_comp x) (c_input x)) end, snd e))
+                     (snd p))) g.
+
+Definition oracle_tocs (c : case) : list nat :=
+  match k_tocs c with
+  | None => []
+  | Some (_, _, _, g') =>
+      if linear_distinct (k_graph c) then tag3 (dod_agree 2 (envs_of c) (strip (k_graph c)) g') 20 1020
+      else []
+  end.
+
 Definition guard_tags (c : case) : list nat :=
   let g := k_graph c in
   tag (no_self_loop g) 201
   ++ tag (match dosing_compartments g with Some _ => true | None => false end) 202
   ++ tag (names_unique (comps g)) 203
-  ++ tag (wf_graph g) 204.
+  ++ tag (wf_graph g) 204
+  ++ (match k_tocs c with Some _ => tag (linear_distinct g) 205 | None => [] end)
+  ++ tag (length (preds_of g Out) <=? 1) 207
+  ++ (match k_subs c with Some (m, _, _) => tag (subs_order_determined m g) 208 | None => [] end).
 
 Definition verdict (c : case) : list nat :=
   check_graph c ++ check_dosing c ++ check_order c ++ check_matrix c ++ check_eqs c ++ check_dict c
-  ++ check_from_dict c ++ check_subs c
+  ++ check_from_dict c ++ check_subs c ++ check_tocs c
   ++ oracle_order c ++ oracle_eqs c ++ oracle_matrix c ++ oracle_mass c ++ oracle_dict c
-  ++ oracle_rebuilt c ++ oracle_subs c ++ guard_tags c.
+  ++ oracle_rebuilt c ++ oracle_subs c ++ oracle_subs_order c ++ oracle_tocs c ++ guard_tags c.
